@@ -105,6 +105,18 @@ pub fn run(a: &Args) -> i32 {
         }
     }
     samples.push(json!({"part": "B", "boundary_seed_example": items.get(partb_from).map(|i| i.seed_fen.clone()), "half_move_values": halves, "ply_values": plies, "depth": bdepth}));
+    // long games from the starting position (clocks reset a dozen times on the way), a small tree
+    // at the end, then the whole game unwound with both clocks compared at every ply
+    let long_lens: &[usize] = &[255, 256, 300, 513, 520, 700, 1100];
+    for len in long_lens {
+        let start = Pos::startpos();
+        items.push(Item { seed_name: format!("long-game-{}", len), seed_fen: start.to_fen(), root: start.clone(), prefix: preroll_game(*len), remaining: 2 });
+    }
+    let eproot = Pos::from_fen(LONG_GAME_EP_ROOT).unwrap();
+    for len in [254usize, 510, 640] {
+        items.push(Item { seed_name: format!("long-game-ep-{}", len), seed_fen: eproot.to_fen(), root: eproot.clone(), prefix: preroll_game_from(&eproot, len), remaining: 2 });
+    }
+    samples.push(json!({"part": "long games unwound", "game_lengths": long_lens, "from_ep_root": [254, 510, 640], "tail_depth": 2}));
     let cfg = WalkCfg { owner: "C16".into(), flags: F16, dedup: false, gen_renew: 60_000, threads: a.threads, wall_cap_s: if thorough { 3600 } else { 200 } };
     // no dedup: the canonical key does not contain the clocks
     let w = Walker::new(cfg, &sink);
